@@ -24,6 +24,12 @@ CONSTANTS
   Dev_NoRecvTimeout = FALSE
   Dev_ClampedBodyRead = FALSE
   Dev_IdleBytesKept = FALSE
+  Dev_CloseLastOnly = FALSE
+  Dev_LeaseWaitRestarts = FALSE
+  LeaseTO = FALSE
+  Stagger = FALSE
+  Dev_ZeroLengthFastPath = FALSE
+  ConnHdr <- MCConnHdr
   Dev_BackoffClampsAttempt = FALSE
 INVARIANT AtMostOnce
 INVARIANT AttemptBound
@@ -31,5 +37,6 @@ INVARIANT FramingNotRetried
 INVARIANT NoReuse
 INVARIANT OwnResponse
 INVARIANT LeaseExclusive
+INVARIANT LeaseWaitBounded
 INVARIANT NoStuck
 CHECK_DEADLOCK FALSE
